@@ -178,6 +178,10 @@ func (i *Index) unmarshalBinary(data []byte) error {
 		return fmt.Errorf("failed to read capacity: %w", err)
 	}
 	i.capacity = slottools.Uint64FromLEBytes(capacityBuf)
+	// every value takes 4 bytes of the input: a larger capacity is corrupt (and must not size the slice)
+	if i.capacity > uint64(reader.Len())/4 {
+		return fmt.Errorf("capacity %d exceeds the %d bytes of values", i.capacity, reader.Len())
+	}
 
 	i.values = make([]int64, i.capacity)
 	for j := uint64(0); j < i.capacity; j++ {
